@@ -403,6 +403,34 @@ func c11Run(c core.Case) core.Result {
 			return core.Violation("macro", fmt.Sprintf("renders\n    %q, want\n    %q\n    %s", out, want, desc))
 		}
 		return core.Okay(true, out)
+	case "inline":
+		// the macro file is an inline template (the default StringLoader: a template's name is its source): a callback
+		// inside the macro body still sees the name of the template that defines the macro - that source
+		form, p, a := c.N[0], c.N[1], c.N[2]
+		macSrc := c11MacroDef("m", p) + "{% macro other() %}o{% endmacro %}"
+		args := c11Args(a)
+		var prelude, call string
+		switch form {
+		case 0:
+			prelude, call = "{% import '"+macSrc+"' as i %}", "i.m("+args+")"
+		case 1:
+			prelude, call = "{% from '"+macSrc+"' import m %}", "m("+args+")"
+		default:
+			prelude, call = "{% from '"+macSrc+"' import m as g %}", "g("+args+")"
+		}
+		main := prelude + "A{{ " + call + " }}|{{ name() == _self.templateName ? 'own' : 'other' }}Z"
+		want := "A" + c11MacroExpect(p, a, macSrc) + "|ownZ"
+		var log []string
+		env := c11Env(nil, &log)
+		env.Loader = &stick.StringLoader{}
+		out, err, pan := tryExec(env, main, nil)
+		if pan != "" || err != nil {
+			return core.Violation("error", fmt.Sprintf("inline template %q: %v %s", main, err, pan))
+		}
+		if out != want {
+			return core.Violation("macro", fmt.Sprintf("inline template %q renders\n    %q, want\n    %q", main, out, want))
+		}
+		return core.Okay(true, "inline")
 	case "between":
 		// what a template imported stays what it is across an embed / include of a template that imports other macros
 		// under the same local names
@@ -578,6 +606,15 @@ func c11Levels(tier string) []core.Level {
 						for use := 0; use < c11Uses; use++ {
 							emit(core.Case{Fam: "hosted", N: []int{p, a, how, use}})
 						}
+					}
+				}
+			}
+		}},
+		{Name: "macro file given as an inline template (StringLoader): import alias / from-import / renamed x 0..3 parameters x 0..4 arguments; the callback in the macro body sees the defining template's name", Gen: func(emit func(core.Case)) {
+			for form := 0; form < 3; form++ {
+				for p := 0; p <= 3; p++ {
+					for a := 0; a <= 4; a++ {
+						emit(core.Case{Fam: "inline", N: []int{form, p, a}})
 					}
 				}
 			}
